@@ -63,6 +63,7 @@ pub fn replay_case(prop: &str, case: &Value) -> Vec<Divergence> {
             }
         }
         Some("fields") => c05_fields_case(case["fen"].as_str().unwrap()),
+        Some("extreme-clocks") => c02_extreme_clocks().1.into_iter().flat_map(|x| x.1).collect(),
         Some("constructors") => c05_constructors(),
         _ => machinery_failure("replay: unknown case kind"),
     }
@@ -80,13 +81,13 @@ fn bounds(prop: &str, tier: Tier) -> Bounds {
     let q = tier == Tier::Quick;
     use Family::*;
     // (family, size level, also check the children one ply below)
-    let thorough_families = vec![(PawnPush, 1, true), (Ep, 1, true), (Castle, 1, true), (Promo, 1, true), (EpCheck, 1, true), (PromoCheck, 1, true), (Three, 0, true)];
+    let thorough_families = vec![(PawnPush, 1, true), (PromoPin, 0, true), (EpPlayed, 1, true), (Ep, 1, true), (Castle, 1, true), (Promo, 1, true), (EpCheck, 1, true), (PromoCheck, 1, true), (Three, 0, true)];
     match prop {
         "C01" => Bounds {
             start_depth: if q { 4 } else { 6 },
             perft_depth: if q { 2 } else { 4 },
             scenario_depth: if q { 2 } else { 3 },
-            families: if q { vec![(PawnPush, 0, true), (Ep, 0, false), (Castle, 0, false), (Promo, 0, false)] } else { thorough_families },
+            families: if q { vec![(PawnPush, 0, true), (PromoPin, 0, true), (Ep, 0, false), (EpPlayed, 0, true), (Castle, 0, false), (Promo, 0, false)] } else { thorough_families },
             sweep_stride: 64,
         },
         "C02" => Bounds {
@@ -94,9 +95,9 @@ fn bounds(prop: &str, tier: Tier) -> Bounds {
             perft_depth: if q { 2 } else { 3 },
             scenario_depth: if q { 2 } else { 3 },
             families: if q {
-                vec![(PawnPush, 0, true), (EpCheck, 0, false), (PromoCheck, 0, false), (Castle, 0, false)]
+                vec![(PawnPush, 0, true), (PromoPin, 0, true), (EpCheck, 0, false), (PromoCheck, 0, false), (Castle, 0, false)]
             } else {
-                vec![(PawnPush, 1, true), (Ep, 1, false), (Castle, 1, false), (Promo, 1, false), (EpCheck, 1, false), (PromoCheck, 1, false), (Three, 0, false)]
+                vec![(PawnPush, 1, true), (PromoPin, 0, true), (Ep, 1, false), (Castle, 1, false), (Promo, 1, false), (EpCheck, 1, false), (PromoCheck, 1, false), (Three, 0, false)]
             },
             sweep_stride: 256,
         },
@@ -104,7 +105,7 @@ fn bounds(prop: &str, tier: Tier) -> Bounds {
             start_depth: if q { 4 } else { 6 },
             perft_depth: if q { 2 } else { 4 },
             scenario_depth: if q { 2 } else { 3 },
-            families: if q { vec![(PawnPush, 0, true), (EpCheck, 0, true), (PromoCheck, 0, true), (Castle, 0, true)] } else { thorough_families },
+            families: if q { vec![(PawnPush, 0, true), (PromoPin, 0, true), (EpCheck, 0, true), (PromoCheck, 0, true), (Castle, 0, true)] } else { thorough_families },
             sweep_stride: 64,
         },
         "C04" => Bounds {
@@ -118,7 +119,7 @@ fn bounds(prop: &str, tier: Tier) -> Bounds {
             start_depth: if q { 4 } else { 6 },
             perft_depth: if q { 2 } else { 4 },
             scenario_depth: if q { 2 } else { 3 },
-            families: if q { vec![(EpCheck, 0, true), (PromoCheck, 0, true), (Castle, 0, true)] } else { thorough_families },
+            families: if q { vec![(PawnPush, 0, true), (PromoPin, 0, true), (Ep, 0, false), (EpCheck, 0, true), (PromoCheck, 0, true), (Castle, 0, true)] } else { thorough_families },
             sweep_stride: 64,
         },
     }
@@ -156,14 +157,14 @@ pub fn run(prop: &str, args: &Args) -> i32 {
     // families
     let mut fam_json = vec![];
     for (fam, level, children) in &b.families {
-        if reduced() && *fam == Family::Promo {
+        if reduced() && matches!(*fam, Family::Promo | Family::Ep | Family::EpPlayed | Family::PromoCheck) {
             continue;
         }
         let mut child_props = props;
         child_props.full_sweep = false;
         let mut root_props = props;
         root_props.full_sweep = false;
-        let special_only = args.tier == Tier::Quick && prop != "C01" && *fam != Family::PawnPush;
+        let special_only = args.tier == Tier::Quick && prop != "C01" && *fam != Family::PawnPush && *fam != Family::PromoPin;
         let t = run_family(*fam, *level, &root_props, if *children { Some(&child_props) } else { None }, special_only, &report, &mut samples);
         fam_json.push(json!({"family": format!("{fam:?}"), "level": level, "transitions_restricted_to_special_moves": args.tier == Tier::Quick && prop != "C01", "positions": t.family_positions, "states_checked": t.states, "transitions": t.transitions, "rejected_as_invalid": t.family_rejected_invalid}));
         totals.merge(&t);
@@ -176,6 +177,14 @@ pub fn run(prop: &str, args: &Args) -> i32 {
         let (keys, d) = c04_keys();
         report.record(&d, || json!({"kind": "keys"}));
         extra = json!({"key_table_entries": keys.len(), "key_pairs_compared": keys.len() * (keys.len() - 1) / 2});
+    }
+    if prop == "C02" {
+        let (n, d) = c02_extreme_clocks();
+        for (what, dd) in d {
+            report.record(&dd, || json!({"kind": "extreme-clocks", "case": what}));
+        }
+        extra = json!({"extreme_clock_transitions": n});
+        totals.transitions += n;
     }
     if prop == "C05" {
         let (n, d) = c05_fields(args.tier);
@@ -288,6 +297,139 @@ fn c05_fields(tier: Tier) -> (u64, Vec<(String, Vec<Divergence>)>) {
     (fens.len() as u64, bad)
 }
 
+/// Clock values FEN cannot carry (up to the 16-bit limit) are installed through the builder on
+/// rights-free positions; every legal move is then applied and the successor's clocks, placement
+/// and side to move are compared with the reference (C02 quantifies over clock values below the
+/// 16-bit limit, i.e. successors up to 65535).
+pub fn c02_extreme_clocks() -> (u64, Vec<(String, Vec<Divergence>)>) {
+    use chess_movegen::Board;
+    let mut n = 0u64;
+    let mut out = vec![];
+    let fens = [
+        "4k3/8/8/8/8/8/4P3/4K2R w - - 0 1",
+        "4k2r/4p3/8/8/8/8/8/4K3 b - - 0 1",
+        "7k/8/8/3pP3/8/8/8/K7 w - d6 0 1",
+        "1n5k/P7/8/8/8/8/8/K7 w - - 0 1",
+        "r3k3/8/8/8/8/8/8/4K2R b - - 0 1",
+    ];
+    for f in fens {
+        let base = Position::from_fen(f).unwrap();
+        for (half, full) in [(9999u32, 9999u32), (10000, 10000), (32767, 32768), (65533, 65533), (65534, 65534), (65534, 0), (0, 65534), (99, 65534), (100, 40000)] {
+            let mut rp = base.clone();
+            rp.half = half;
+            rp.full = full;
+            let mut bld = Board::builder();
+            bld.turn(real_color(rp.turn)).half_move_clock(half as u16).full_move_clock(full as u16);
+            bld.enpassant(rp.ep.map(|x| chess_bitboard::File::from_u8(x as u8).unwrap()));
+            for s in 0..64u8 {
+                if let Some((c, p)) = rp.at(s) {
+                    let _ = bld.place(pos(s), real_color(c), real_piece(p));
+                }
+            }
+            let Ok(board) = bld.build() else {
+                out.push((format!("{f} {half} {full}"), vec![Divergence::new("builder-rejects-valid-position", format!("{f} with clocks {half}/{full}"))]));
+                continue;
+            };
+            let mut d = vec![];
+            for m in rp.legal_moves() {
+                let want = rp.make(m);
+                if want.half > 65535 || want.full > 65535 {
+                    continue;
+                }
+                n += 1;
+                match board.move_new(real_mv(m)) {
+                    None => d.push(Divergence::new("move_new-refuses-legal:extreme-clocks", format!("{f} clocks {half}/{full}: {}", m.uci()))),
+                    Some(c) => {
+                        if c.half_move_clock() as u32 != want.half {
+                            d.push(Divergence::new("wrong-successor:half-move-clock:extreme-values", format!("{f} half-move {half}, after {}: {} (rules: {})", m.uci(), c.half_move_clock(), want.half)));
+                        }
+                        if c.full_move_clock() as u32 != want.full {
+                            d.push(Divergence::new("wrong-successor:full-move-clock:extreme-values", format!("{f} full-move {full}, after {}: {} (rules: {})", m.uci(), c.full_move_clock(), want.full)));
+                        }
+                        let mut got = read_back(&c);
+                        got.half = want.half;
+                        got.full = want.full;
+                        if let Some(diff) = diff_position(&got, &want) {
+                            d.push(Divergence::new("wrong-successor:extreme-clocks", format!("{f} clocks {half}/{full} after {}: {diff}", m.uci())));
+                        }
+                    }
+                }
+            }
+            if !d.is_empty() {
+                out.push((format!("{f} {half} {full}"), d));
+            }
+        }
+    }
+    (n, out)
+}
+
+/// builder call sequences that must end in the same board as the parser: plain, with a rejected
+/// placement on an occupied square in the middle, with remove + re-place, with a placed-then-removed
+/// extra piece; compared by Eq, hash, clocks, text and Debug rendering
+fn c05_builder_sequences(d: &mut Vec<Divergence>) -> u64 {
+    use chess_bitboard::{Color, Piece};
+    use chess_movegen::Board;
+    let (roots, _) = all_roots();
+    let mut n = 0;
+    for r in roots {
+        if r.pos.rights.iter().any(|x| *x) {
+            continue;
+        }
+        let fen = r.pos.to_fen();
+        let Ok(twin) = parse_board(&fen) else { continue };
+        let squares: Vec<u8> = (0..64u8).filter(|s| r.pos.at(*s).is_some()).collect();
+        let empty: Vec<u8> = (0..64u8).filter(|s| r.pos.at(*s).is_none()).collect();
+        for variant in 0..5 {
+            n += 1;
+            let mut bld = Board::builder();
+            bld.turn(real_color(r.pos.turn)).half_move_clock(r.pos.half as u16).full_move_clock(r.pos.full as u16);
+            bld.enpassant(r.pos.ep.map(|f| chess_bitboard::File::from_u8(f as u8).unwrap()));
+            let order: Vec<u8> = if variant == 4 { squares.iter().rev().copied().collect() } else { squares.clone() };
+            for (i, &s) in order.iter().enumerate() {
+                let (c, p) = r.pos.at(s).unwrap();
+                let _ = bld.place(pos(s), real_color(c), real_piece(p));
+                match variant {
+                    // a rejected placement on the square just filled
+                    1 if i % 3 == 0 => {
+                        if bld.place(pos(s), Color::Black, Piece::Queen).is_ok() {
+                            d.push(Divergence::new("builder-accepts-placement-on-occupied-square", fen.clone()));
+                        }
+                    }
+                    // remove and put back
+                    2 if i % 2 == 0 => {
+                        bld.remove(pos(s));
+                        let _ = bld.place(pos(s), real_color(c), real_piece(p));
+                    }
+                    // an extra piece placed on an empty square and removed again; removing an empty square
+                    3 if i == 1 => {
+                        if let Some(&e) = empty.first() {
+                            let _ = bld.place(pos(e), Color::White, Piece::Knight);
+                            bld.remove(pos(e));
+                            if let Some(&e2) = empty.last() {
+                                bld.remove(pos(e2));
+                            }
+                        }
+                    }
+                    _ => {}
+                }
+            }
+            match bld.build() {
+                Ok(b) => {
+                    if b != twin || b.zobrist() != twin.zobrist() || b.half_move_clock() != twin.half_move_clock() || b.full_move_clock() != twin.full_move_clock() || b.to_string() != twin.to_string() || format!("{b:?}") != format!("{twin:?}") {
+                        let what = if b.zobrist() != twin.zobrist() { "hash" } else { "board-or-derived-state" };
+                        d.push(Divergence::new(
+                            format!("builder-sequence-differs-from-parser:{what}:variant-{variant}"),
+                            format!("{fen}: builder call sequence variant {variant} (1 = rejected placement, 2 = remove + re-place, 3 = extra piece placed and removed, 4 = reverse order) gives a board that differs from the parsed one"),
+                        ));
+                    }
+                }
+                Err(e) => d.push(Divergence::new("builder-rejects-position-the-parser-accepts", format!("{fen}: {e:?}"))),
+            }
+        }
+    }
+    n
+}
+
 /// standard() vs parser vs builder
 pub fn c05_constructors() -> Vec<Divergence> {
     use chess_movegen::Board;
@@ -345,6 +487,7 @@ pub fn c05_constructors() -> Vec<Divergence> {
             }
         }
     }
+    let _ = c05_builder_sequences(&mut d);
     d
 }
 
